@@ -86,6 +86,9 @@ class GeminiProtocol(BaseGopherProtocol):
             self.write_status(30, f"{selector}?{searchrequest}")
 
     def write_status(self, code: int, meta: str) -> None:
+        # The status is exactly one line: a selector echoed in an error message
+        # must not be able to start further lines.
+        meta = re.sub(r"[\r\n]+", " ", meta)
         self.wfile.write(f"{code} {meta}\r\n".encode(errors="backslashreplace"))
 
     def adjust_mimetype(self, mimetype: typing.Optional[str]) -> str:
